@@ -20,7 +20,12 @@ RULE = ("seeded generator over an in-memory PacketConn pair wrapped with WrapPac
         "underlying read/write errors, packets built by a python hashlib reference obfuscator) mixed with valid packets; write-fault histories "
         "(the socket below fails one or several writes, then further valid writes that must reach the wire and arrive unchanged; every call of "
         "the wrapper runs under a real-time watchdog, a call that never returns is a verdict with the case as replay); direct "
-        "Obfuscate/Deobfuscate calls with short output buffers; short keys; concurrent readers+writers+junk on both sockets (with and without scripted write faults below, writers retrying). The wire bytes are "
+        "Obfuscate/Deobfuscate calls with short output buffers; short keys; keys drawn over BYTES rather than characters - every way to spell exactly 4 bytes with 1..3 "
+        "code points, 5..12 bytes with fewer than 4 code points, invalid UTF-8 (lone continuation bytes, overlong forms, surrogates, truncated sequences, 0xf5..0xff), NUL and "
+        "white-space bytes, one byte repeated, binary keys of 64..1500 bytes, and keys of 0..3 bytes over the same classes - each offered to the constructor (refused iff fewer "
+        "than 4 bytes; an accepted key's wire image of a probe packet is compared with hashlib) and used for round trips through a wrapper pair together with a packet built by the "
+        "python reference from the same key bytes; payload lengths stratified over the whole range 1..2040 (every 60-byte stratum written through the pair in each run, every "
+        "170-byte stratum as a reference-built packet offered to the reader alone); concurrent readers+writers+junk on both sockets (with and without scripted write faults below, writers retrying). The wire bytes are "
         "captured below the wrapper, the random salt is read back from them, and each case is compared with (1) the Coq model with the Gallina "
         "BLAKE2b inside the kernel, (2) python hashlib.blake2b, (3) the property predicate in the Go harness (x/crypto blake2b called directly). "
         "Non-trivial = at least one packet crossed the wrapper pair or junk was offered. Distinct = distinct JSON case.")
@@ -194,12 +199,171 @@ def werr_case(rng, kernel=True):
     return {"k": "st", "psk": key, "plen": rng.choice([2048, 2048, 2048, 2040, 1500]), "udp": rng.random() < 0.3, "items": items, "kernel": kernel}
 
 
+# ---------------------------------------------------------------- keys drawn over BYTES, not characters
+# The key rule and the keystream are over the key's bytes: a key is refused iff it has fewer than 4 bytes, and an accepted key enters
+# BLAKE2b as it is.  What the bytes spell when read as text must not matter: multi-byte UTF-8 sequences (fewer code points than bytes),
+# bytes that are no UTF-8 at all, NULs, white space at the ends, one byte repeated, long binary keys.
+
+def rcp(rng, nbytes):
+    """a random code point whose UTF-8 encoding has nbytes bytes"""
+    if nbytes == 1:
+        return rng.randint(0x21, 0x7e)
+    if nbytes == 2:
+        return rng.randint(0x80, 0x7ff)
+    if nbytes == 3:
+        while True:
+            cp = rng.randint(0x800, 0xffff)
+            if not 0xd800 <= cp <= 0xdfff:
+                return cp
+    return rng.randint(0x10000, 0x10ffff)
+
+
+def utf8_key(rng, shape):
+    """valid UTF-8 with one code point per entry of shape, the entry being the length of its encoding"""
+    return "".join(chr(rcp(rng, n)) for n in shape).encode("utf-8")
+
+
+# every way to spell exactly 4 bytes with 1..3 code points, then 5..12 bytes with fewer than 4 code points
+SHAPES_4B = [[4], [2, 2], [3, 1], [1, 3], [2, 1, 1], [1, 2, 1], [1, 1, 2]]
+SHAPES_FEW = [[4, 1], [2, 3], [3, 3], [2, 2, 1], [2, 2, 2], [4, 4], [3, 4], [4, 3, 2], [3, 3, 3], [4, 4, 4]]
+SHAPES_SHORT = [[1], [2], [3], [1, 1], [1, 2], [2, 1], [1, 1, 1]]      # 1..3 bytes: refused
+
+
+def runes(b):
+    """code points as Go's utf8.RuneCount counts them (every byte of an invalid sequence is one)"""
+    return len(b.decode("utf-8", errors="surrogateescape"))
+
+
+def invalid_keys(rng):
+    hi = lambda n: bytes(rng.randint(0x80, 0xff) for _ in range(n))
+    return [
+        bytes([0x80, 0x80, 0x80, 0x80]), bytes([0xbf] * 4), hi(4), hi(5), hi(16),                     # lone continuation / random high bytes
+        bytes([0xc0, 0x80, 0xc0, 0x80]), bytes([0xe0, 0x80, 0x80, 0x41]),                          # overlong encodings
+        bytes([0xed, 0xa0, 0x80, rng.randrange(256)]), bytes([0xed, 0xbf, 0xbf, 0xed, 0xa0, 0x80]),    # UTF-16 surrogates
+        bytes([0xe6, 0x97, 0xe6, 0x97]), bytes([0xf0, 0x9f, 0xa6, 0x41]), bytes([0xc3, 0x41, 0xc3, 0x41]),  # truncated sequences
+        bytes([0xff, 0xfe, 0xfd, 0xfc]), bytes([0xf5, 0xf8, 0xfc, 0xff]), bytes([0xf4, 0x90, 0x80, 0x80]),  # never valid / beyond U+10FFFF
+        utf8_key(rng, [2]) + bytes([0x00, 0xff]), utf8_key(rng, [3]) + bytes([rng.randint(0x80, 0xbf)]),     # valid sequence + junk byte
+        bytes([0xff]) + utf8_key(rng, [3]), utf8_key(rng, [4]) + hi(2) + utf8_key(rng, [2]),
+    ]
+
+
+def nul_ws_keys(rng):
+    a = lambda n: bytes(rng.randint(0x61, 0x7a) for _ in range(n))
+    return [
+        bytes(4), bytes(5), bytes(64), a(2) + bytes(2), bytes(1) + a(3), a(3) + bytes(1), a(1) + bytes(2) + a(1), bytes(3) + a(1),
+        b"    ", b" " + a(2) + b" ", b"\t" + a(2) + b"\n", a(3) + b"\n", b"\r\n\r\n", b"\n" + a(3), a(2) + b"\r\n", a(4) + b"\x00",
+        bytes([rng.randrange(256)]) * 4, bytes([0xff]) * 4, b"a" * 4, bytes([rng.randint(0x80, 0xff)]) * 7,
+    ]
+
+
+def long_keys(rng, kernel):
+    hib = lambda n: bytes(rng.choice([rng.randint(0x80, 0xff), rng.randrange(256)]) for _ in range(n))
+    lens = [64, 65, 100, 119, 120, 121, 128, 200] if kernel else [64, 127, 128, 129, 255, 256, 257, 300, 512, 1024, rng.randint(65, 1500)]
+    out = [hib(n) for n in lens]
+    out.append(utf8_key(rng, [3] * (30 if kernel else 90)))        # long CJK-like pass phrase
+    out.append(utf8_key(rng, [rng.choice([1, 2, 3, 4]) for _ in range(24 if kernel else 200)]))
+    return out
+
+
+def byte_keys(rng, kernel=True):
+    """[(class name, key bytes)] - every class of every call, fresh random members"""
+    out = []
+    for sh in SHAPES_4B:
+        out.append(("utf8-4bytes-%dcp" % len(sh), utf8_key(rng, sh)))
+    for sh in SHAPES_FEW:
+        out.append(("utf8-%dbytes-%dcp" % (sum(sh), len(sh)), utf8_key(rng, sh)))
+    for _ in range(4):
+        sh = [rng.randint(1, 4) for _ in range(rng.randint(1, 3))]
+        while sum(sh) < 4:
+            sh[rng.randrange(len(sh))] += 1
+        out.append(("utf8-%dbytes-%dcp" % (sum(sh), len(sh)), utf8_key(rng, sh)))
+    for sh in ([1, 1, 1, 1], [2, 2, 2, 2], [3, 1, 1, 1], [4, 4, 4, 4], [rng.randint(1, 4) for _ in range(rng.randint(4, 12))]):
+        out.append(("utf8-%dbytes-%dcp" % (sum(sh), len(sh)), utf8_key(rng, sh)))       # 4 and more code points: controls
+    out += [("invalid-utf8", k) for k in invalid_keys(rng)]
+    out += [("nul-ws-repeat", k) for k in nul_ws_keys(rng)]
+    out += [("long-binary", k) for k in long_keys(rng, kernel)]
+    return out
+
+
+def short_byte_keys(rng):
+    """keys of 0..3 bytes over the same byte classes: refused, every one"""
+    out = [("short", b"")]
+    for sh in SHAPES_SHORT:
+        out.append(("short-utf8-%dbytes-%dcp" % (sum(sh), len(sh)), utf8_key(rng, sh)))
+    for k in (bytes(1), bytes(2), bytes(3), bytes([0xff] * 3), bytes([0x80, 0xbf, 0x80]), bytes([0xf0, 0x9f, 0xa6]), bytes([0xe6, 0x97]),
+              b"ab\x00", b"   ", b"ab\n", bytes(rng.randrange(256) for _ in range(3)), bytes(rng.randint(0x80, 0xff) for _ in range(3))):
+        out.append(("short-bytes", k))
+    return out
+
+
+def bytekey_stream(rng, kc, key, kernel):
+    """round trip and wire image under a byte-level key: packets written through the wrapper pair (small, and anywhere in 1..2040 for the
+    oracle-only cases), a packet built by the python reference with the same key bytes (must surface as its payload), junk"""
+    items = [w_item(rng, rng.choice([1, 2, 5, 31, 32, 33]))]
+    items.append(ref_item(rng, key, rng.choice([1, 7, 32, 33, 80])))
+    if rng.random() < 0.5:
+        items.append(junk_item(rng))
+    items.append(w_item(rng, rng.choice([40, 64, 65, 100]) if kernel else rng.choice(BOUNDARY + [rng.randint(1, 2040)] * 2)))
+    return {"k": "st", "psk": lit(key), "plen": 2048, "udp": rng.random() < 0.3, "items": items, "kernel": kernel, "kc": kc}
+
+
+def bytekey_cases(rng, scale):
+    cases = []
+    # --- acceptance: refused iff fewer than 4 BYTES (the Coq model's new_obfs on the same bytes, the Go predicate, the python rule)
+    for kc, k in short_byte_keys(rng) + byte_keys(rng, kernel=True) + [("long-binary", x) for x in long_keys(rng, False)]:
+        cases.append({"k": "key", "psk": lit(k), "kernel": True, "kc": kc})
+    # --- round trip / wire image, in the kernel: every 4-byte shape, the other classes sampled
+    ks = byte_keys(rng, kernel=True)
+    four = [x for x in ks if x[0].startswith("utf8-4bytes")]
+    rest = [x for x in ks if not x[0].startswith("utf8-4bytes")]
+    for kc, k in four + rng.sample(rest, min(len(rest), 14)):
+        cases.append(bytekey_stream(rng, kc, k, True))
+    # --- direct Obfuscate / Deobfuscate under such keys
+    for kc, k in rng.sample(ks, 8):
+        n = rng.choice([1, 32, 33, 100])
+        cases.append({"k": "obf", "psk": lit(k), "d": gend(rng, n), "cap": rng.choice([n + 8, 2048]), "kernel": True, "kc": kc})
+        p = bytes(rng.randrange(256) for _ in range(n))
+        cases.append({"k": "deobf", "psk": lit(k), "d": lit(ref_obfuscate(k, bytes(rng.randrange(256) for _ in range(8)), p)),
+                      "cap": rng.choice([n, 2048]), "kernel": True, "exp": p.hex(), "kc": kc})
+    # --- many more against the Go predicate and the hashlib oracle
+    for _ in range(3 * scale):
+        for kc, k in byte_keys(rng, kernel=False):
+            cases.append(bytekey_stream(rng, kc, k, False))
+    return cases
+
+
+def sweep_cases(rng, scale):
+    """payload lengths across the whole 1..2040 range, both directions against the wire image: every 60-byte stratum of the range once per
+    case as a write through the wrapper pair (wire image checked below the writer, payload at the reader), and packets of such lengths built
+    by the python reference (the reading side alone: must surface whole, whatever the writing side of this tree does)"""
+    cases = []
+    for _ in range(2 * scale):
+        key = rkey(rng)
+        lens = [rng.randint(lo, min(lo + 59, 2040)) for lo in range(1, 2041, 60)]
+        rng.shuffle(lens)
+        for part in (lens[:17], lens[17:]):
+            cases.append({"k": "st", "psk": key, "plen": rng.choice([2048, 2040, 4096]), "udp": rng.random() < 0.3, "kernel": False,
+                          "items": [w_item(rng, n) for n in part], "kc": "len-sweep"})
+    for _ in range(2 * scale):
+        key = rkey(rng)
+        psk = bs(key)
+        lens = [rng.randint(lo, min(lo + 169, 2040)) for lo in range(1, 2041, 170)] + [2040, rng.choice([1500, 1501, 1508, 1509])]
+        cases.append({"k": "st", "psk": key, "plen": rng.choice([2048, 2040]), "udp": False, "kernel": False,
+                      "items": [ref_item(rng, psk, n) for n in lens], "kc": "len-sweep-reference-packets"})
+    return cases
+
+
+
 def gen(rng, tier):
     scale = 1 if tier == "quick" else 12
     cases = []
     # --- constructor
     for n in (0, 1, 2, 3, 4, 5, 6, 64, 200):
         cases.append({"k": "key", "psk": rkey(rng, n), "kernel": True})
+    # --- keys over bytes (multi-byte UTF-8, invalid UTF-8, NUL / white space, long binary): acceptance, round trip, wire image
+    cases += bytekey_cases(rng, scale)
+    # --- the whole payload range 1..2040 in both directions
+    cases += sweep_cases(rng, scale)
     # --- every junk length 0..9 alone, before and after a valid packet
     for n in range(10):
         cases.append({"k": "st", "psk": rkey(rng), "plen": 2048, "udp": False, "kernel": True,
@@ -276,6 +440,19 @@ def gen(rng, tier):
 
 # ---------------------------------------------------------------- python oracle (hashlib) on the captured observations
 
+PROBE = bytes([0x00, 0x01, 0x7f, 0x80, 0xff, 0x41, 0xc3, 0xa4, 0x0a])      # c13Key's probe packet
+REQUIRED = {"obf": ("n", "out"), "deobf": ("n", "out"), "st": ("writes", "reads"), "conc": ("recv0", "recv1"), "hammer": ("badObf",), "key": ("refused",)}
+
+
+def keyhex(psk):
+    return psk[:24].hex(" ") + (" ..." if len(psk) > 24 else "")
+
+
+def missing_fields(c, o):
+    """observations a complete record of this case kind carries and this one does not (the harness returned early: an error form)"""
+    return [f for f in REQUIRED.get(c["k"], ()) if o.get(f) is None]
+
+
 def oracle(c, o):
     """Second, independent judgement of the observations of one case; returns a list of complaints."""
     bad = []
@@ -283,10 +460,27 @@ def oracle(c, o):
     if o.get("panic"):
         return bad  # already a violation on the Go side
     psk = bs(c["psk"])
+    if o.get("stuck"):
+        return bad  # a call never returned: already a violation on the Go side, nothing was observed
     if k == "key":
         if (len(psk) < 4) != bool(o.get("refused")):
-            bad.append("key of %d bytes: refused=%s" % (len(psk), o.get("refused")))
-    elif k == "obf":
+            bad.append("key of %d bytes [%s]: refused=%s (the rule is over bytes: refused iff fewer than 4 bytes)" % (len(psk), keyhex(psk), o.get("refused")))
+        if o.get("key") is not None and o["key"] != psk.hex():
+            bad.append("harness saw a different key than the case names")
+        if len(psk) >= 4 and not o.get("refused"):
+            pr = bytes.fromhex(o.get("probe") or "")
+            if len(pr) != len(PROBE) + SALT or pr != ref_obfuscate(psk, pr[:SALT], PROBE):
+                bad.append("wire differs from salt||payload^BLAKE2b-256(key||salt) computed with hashlib (probe packet, key %d bytes [%s])" % (len(psk), keyhex(psk)))
+        return bad
+    if o.get("refused"):
+        # no obfuscator / wrapped socket could be made for this case's key: the observations below do not exist
+        bad.append("key of %d bytes [%s] refused (the rule is over bytes: refused iff fewer than 4 bytes)" % (len(psk), keyhex(psk)))
+        return bad
+    miss = missing_fields(c, o)
+    if miss:
+        bad.append("harness record of a %s case has no %s (error form: %s)" % (k, "/".join(miss), (o.get("why") or "no verdict text")[:200]))
+        return bad
+    if k == "obf":
         p = bs(c["d"])
         n = o.get("n", -1)
         out = bytes.fromhex(o.get("out", ""))
@@ -389,9 +583,14 @@ def copt(e):
 
 
 def to_coq(c, o):
-    if not c.get("kernel") or o.get("panic"):
+    if not c.get("kernel") or o.get("panic") or o.get("stuck"):
         return None
     k = c["k"]
+    if k != "key" and o.get("refused"):
+        # the case could not run because its key was refused: what the model is asked is the key rule on those bytes
+        return "CKey %s true" % cb(c["psk"])
+    if missing_fields(c, o):
+        return None     # error form (the verdict text says why; judge() has made it a failing case): nothing to compare
     if k == "key":
         return "CKey %s %s" % (cb(c["psk"]), "true" if o.get("refused") else "false")
     if k == "obf":
@@ -429,7 +628,9 @@ def to_coq(c, o):
 def klass(c, o):
     k = c["k"]
     if k == "key":
-        return "key:" + ("refused" if o.get("refused") else "accepted")
+        return "key:" + ("refused" if o.get("refused") else "accepted") + (":" + key_class(c) if c.get("kc") else "")
+    if o.get("refused") or missing_fields(c, o):
+        return k + ":did-not-run"
     if k == "obf":
         return "obf:" + ("short-buffer" if o.get("n") == 0 else "ok")
     if k == "deobf":
@@ -441,8 +642,16 @@ def klass(c, o):
     ne = sum(1 for it in c["items"] if it["err"])
     we = [j for j, it in enumerate(c["items"]) if it["t"] == "w" and it["err"]]
     wf = bool(we) and any(it["t"] == "w" and not it["err"] for it in c["items"][we[0] + 1:])
-    return "st%s:%s%s%s%s%s" % ("" if c.get("kernel") else "-oracle", "junk+" if nj else "", "err+" if ne else "", "wfault-then-write+" if wf else "",
+    return "st%s%s:%s%s%s%s%s" % ("" if c.get("kernel") else "-oracle", "+bytekey" if c.get("kc") and not c["kc"].startswith("len-") else "", "junk+" if nj else "", "err+" if ne else "", "wfault-then-write+" if wf else "",
                                "rbuf-near-payload+" if near_ks(c) else "", "reads=%d" % min(nr, 3))
+
+
+def key_class(c):
+    kc = c.get("kc") or ""
+    if kc.startswith("utf8-") or kc.startswith("short-utf8-"):
+        b = bs(c["psk"])
+        return "utf8:%s-bytes:%s-code-points" % ("<4" if len(b) < 4 else ">=4", "<4" if runes(b) < 4 else ">=4")
+    return kc
 
 
 def valid_lens(c):
@@ -541,8 +750,7 @@ def search(ctx, disagreeing):
         judge(cases, outs)
         for c, o in zip(cases, outs):
             if o.get("ok") is False:
-                found.append({"what": "%s: %s" % (c["k"], o.get("why")), "replay": {"case": c, "impl": slim(o)},
-                              "fingerprint": fingerprint(c, o), "found_input": True})
+                found.append(violation(c, o))
         if found:
             break
     return found
@@ -559,6 +767,17 @@ def slim(o):
             return {k: cut(x) for k, x in v.items()}
         return v
     return {k: cut(v) for k, v in o.items() if k != "i"}
+
+
+def violation(c, o, tag=""):
+    """a failing case as a violation record: the case is the replay; the key is spelled out in bytes as well (a generated key is only
+    (a, b, n) in the case) since for a refused key it is the whole failing input"""
+    rp = {"case": c, "impl": slim(o)}
+    if c.get("psk") is not None:
+        psk = bs(c["psk"])
+        rp["key_hex"] = psk.hex()
+        rp["key_bytes"], rp["key_code_points_as_utf8"] = len(psk), runes(psk)
+    return {"what": "%s%s: %s" % (c.get("k"), tag, o.get("why")), "replay": rp, "fingerprint": fingerprint(c, o), "found_input": True}
 
 
 def race_violation(log, conc_cases):
@@ -650,6 +869,55 @@ def near_coverage(cases, outs):
     return cov
 
 
+def bytekey_coverage(cases, outs):
+    """byte-level key classes: per class, how many keys were offered to the constructor and how many packets crossed a wrapper pair made
+    with such a key; separately the keys of 4 or more bytes that spell fewer than 4 code points"""
+    cov = {}
+    few = {"keys_ge4_bytes_lt4_code_points_offered": 0, "of_those_accepted": 0, "packets_returned_under_such_keys": 0,
+           "keys_lt4_bytes_offered": 0, "of_those_refused": 0}
+    for c, o in zip(cases, outs):
+        if c.get("psk") is None or c["k"] not in ("key", "st", "obf", "deobf"):
+            continue
+        b = bs(c["psk"])
+        fewcp = len(b) >= 4 and runes(b) < 4
+        if c["k"] == "key":
+            if fewcp:
+                few["keys_ge4_bytes_lt4_code_points_offered"] += 1
+                few["of_those_accepted"] += 0 if o.get("refused") else 1
+            if len(b) < 4:
+                few["keys_lt4_bytes_offered"] += 1
+                few["of_those_refused"] += 1 if o.get("refused") else 0
+        elif fewcp and c["k"] == "st":
+            few["packets_returned_under_such_keys"] += len(o.get("reads") or [])
+        kc = c.get("kc")
+        if kc and not kc.startswith("len-"):
+            kc = key_class(c)
+            d = cov.setdefault(kc, {"constructor_cases": 0, "socket_pair_cases": 0, "packets_returned": 0})
+            if c["k"] == "key":
+                d["constructor_cases"] += 1
+            elif c["k"] == "st":
+                d["socket_pair_cases"] += 1
+                d["packets_returned"] += len(o.get("reads") or [])
+    return {"classes": cov, **few}
+
+
+def sweep_coverage(cases, outs, width=120):
+    """per stratum of the payload range 1..2040: packets written through a wrapper (wire image checked) and packets returned by a reader"""
+    wr = [0] * ((BUF - SALT + width - 1) // width)
+    rd = [0] * len(wr)
+    for c, o in zip(cases, outs):
+        if c["k"] != "st":
+            continue
+        for it in c["items"]:
+            n = dlen(it["d"])
+            if it["t"] == "w" and not it["err"] and 1 <= n <= BUF - SALT:
+                wr[(n - 1) // width] += 1
+        for r in o.get("reads") or []:
+            if not r.get("err") and 1 <= r.get("n", 0) <= BUF - SALT:
+                rd[(r["n"] - 1) // width] += 1
+    return {"stratum_width": width, "written": wr, "returned": rd}
+
+
 def run(ctx):
     """common.run_case_check with one more judge: the python hashlib oracle on every case's observations
     (same decision rule), and -race for the Go run in the thorough tier."""
@@ -682,8 +950,7 @@ def run(ctx):
         judge(conc_cases, routs)
         for c, o in zip(conc_cases, routs):
             if o.get("ok") is False:
-                violations.append({"what": "%s (-race run): %s" % (c.get("k"), o.get("why")), "replay": {"case": c, "impl": slim(o)},
-                                   "fingerprint": fingerprint(c, o), "found_input": True})
+                violations.append(violation(c, o, " (-race run)"))
     if params is not None:
         if common.write_params(PARAMS_NAME, [tuple(p) for p in params]):
             ctx.say("Params changed -> rebuilding dependants")
@@ -719,8 +986,7 @@ def run(ctx):
         if nontrivial(c, o):
             nontriv.add(json.dumps(c, sort_keys=True))
         if o.get("ok") is False:
-            violations.append({"what": "%s: %s" % (c.get("k"), o.get("why")), "replay": {"case": c, "impl": slim(o)},
-                               "fingerprint": fingerprint(c, o), "found_input": True})
+            violations.append(violation(c, o))
     impl_bad = any(v.get("found_input") for v in violations)
     broken = []
     if not proof_ok:
@@ -753,6 +1019,7 @@ def run(ctx):
            "packets_on_the_wire": sum(len(o.get("writes") or []) + len(o.get("wires0") or []) + len(o.get("wires1") or []) for o in outs),
            "go_race_detector": "all cases" if ctx.tier != "quick" else "concurrency cases (second run)",
            "lock_observation": lockobs, "reader_buffer_payload_plus_k_cases": near_coverage(cases, outs),
+           "byte_level_keys": bytekey_coverage(cases, outs), "payload_length_strata_written_and_read": sweep_coverage(cases, outs),
            "notes": [l for l in ctx.log if l.startswith("NOTE:")]}
     return common.finish(ctx, pinfo, cov, violations, ASSUMPTIONS, trusted_extra=TRUSTED)
 
@@ -778,7 +1045,7 @@ LEVEL_TEXT = ("Machine-checked Coq theorems over a Gallina model of salamander.g
               "every sequence of incoming datagrams and errors (no bound on lengths), a packet written through the wrapper is returned unchanged by a "
               "wrapper with the same key - proved for an arbitrary hash function -, the wire packet is salt || payload XOR BLAKE2b-256(key||salt) "
               "cycled with the Gallina RFC 7693 BLAKE2b (RFC and hashlib vectors checked in the kernel), reported counts are the original lengths, "
-              "datagrams of 0..8 bytes never surface whatever surrounds them, keys under 4 bytes are refused, nothing panics, and the surfaced sequence "
+              "datagrams of 0..8 bytes never surface whatever surrounds them, a key is refused exactly when it has fewer than 4 bytes (the rule looks at the number of bytes only: two keys of the same byte length are treated alike, whatever they spell) and every key of 4 or more bytes round-trips, nothing panics, and the surfaced sequence "
               "does not depend on how concurrent readers are scheduled; for every history of writes (with any outcome of the socket below) and read iterations every "
               "call returns and both mutexes are free again (a failed underlying write leaves the socket usable). The model is tied to /repo on every run by regenerated constants and a "
               "differential run of the Go code (x/crypto blake2b) against the model inside the Coq kernel and against python hashlib.")
